@@ -401,3 +401,24 @@ package keeper
 //@   invariant !isUpdate ==> state(ctx) == old(state(ctx))
 //@   step[C04.iubo.visit] traceN() == old(traceN()) + 1 ||
 //@        (heightFilter != nil && res_ParseUndelegationRecordKey_0.BlockHeight < *heightFilter && traceN() == old(traceN()) && state(ctx) == old(state(ctx)))
+
+// ---------------------------------------------------------------------------------------------
+// C03 (the recorded amount of a pending undelegation is what is released): whatever a visitor does to a record
+// it is handed is written back before the iteration moves on or stops: after every visit with isUpdate the stored
+// bytes of that record are the encoding of the record as the visitor left it.
+//@ func (*Keeper).IterateUndelegationsByStakerAndAsset#opFunc
+//@   flag assumed
+//@   modifies *undelegation
+//@   emits mkEv(61, "visit", 0)
+
+//@ define urPfx() = g("x/delegation/types.KeyPrefixUndelegationInfo")
+//@ func (*Keeper).IterateUndelegationsByStakerAndAsset
+//@   modifies store(ctx, "delegation"), trace, heap["x/delegation/types.UndelegationRecord"]
+//@   before[C03.iusa.record] #opFunc requires *arg_undelegation == unm["x/delegation/types.UndelegationRecord"](res_Get_0) && arg_undelegationKey == res_Value_0
+//@   ensures[C03.iusa.persist] defined(res_Value_0) && err == nil && isUpdate ==>
+//@        get(ctx, "delegation", cat(urPfx(), res_Value_0)) == res_MustMarshal_0
+//@   ensures[C03.iusa.readonly] !isUpdate ==> state(ctx) == old(state(ctx))
+//@ loop #1
+//@   invariant !isUpdate ==> state(ctx) == old(state(ctx))
+//@   invariant traceN() >= old(traceN())
+//@   step[C03.iusa.persist] traceN() == old(traceN()) + 1 && (isUpdate ==> get(ctx, "delegation", cat(urPfx(), res_Value_0)) == res_MustMarshal_0)
